@@ -101,4 +101,51 @@ Verdict_MD019(B) ==
 Verdict_MD023(B) ==
   V({B[i].ln : i \in {x \in Blocks(B, "h") : B[x].indent > 0}},
     {B[i].ln : i \in {x \in Blocks(B, "h") : B[x].depth > 0}})
+
+(* MD003 heading-style: every heading has the configured style / the style of the first heading (consistent).  ATX with a
+   tab counts as ATX.  Under a setext style, headings of level 3+ cannot be setext: undecided (setext_with_atx, allow-setext-update). *)
+Family(st) == IF st \in {"atx", "atx_tab"} THEN "atx" ELSE st
+Verdict_MD003(B, cfg) ==
+  LET hs == Blocks(B, "h")
+      first == IF hs = {} THEN 0 ELSE CHOOSE i \in hs : \A j \in hs : i <= j
+      want == IF cfg.style = "consistent" THEN (IF first = 0 THEN "" ELSE Family(B[first].style)) ELSE cfg.style IN
+  V({B[i].ln : i \in {x \in hs : Family(B[x].style) # want}},
+    {B[i].ln : i \in {x \in hs : want = "setext" /\ B[x].level >= 3}})
+
+(* MD024 no-duplicate-heading: a heading whose text equals the text of an earlier heading.  Undecided: texts with inline markup. *)
+Verdict_MD024(B) ==
+  LET hs == Blocks(B, "h") IN
+  V({B[i].ln : i \in {x \in hs : \E y \in hs : y < x /\ B[y].text = B[x].text}},
+    {B[i].ln : i \in {x \in hs : B[x].markup}})
+
+(* MD026 no-trailing-punctuation: the heading text ends in one of the configured characters.  Undecided: a text ending in ';'
+   that may be an entity, texts with inline markup at the end. *)
+Verdict_MD026(B, cfg) ==
+  LET hs == Blocks(B, "h") IN
+  V({B[i].ln : i \in {x \in hs : B[x].lastch \in cfg.punctuation}},
+    {B[i].ln : i \in {x \in hs : B[x].lastch = ";" \/ B[x].markup}})
+
+(* MD041 first-line-heading: the first element of the document is not a heading of the configured level.  Undecided: documents
+   that start with an HTML block (an <h1> element counts), with blank lines, or inside a container; empty documents. *)
+Verdict_MD041(L, B, cfg) ==
+  IF Len(B) = 0 THEN V({}, 1..(Len(L) + 1))
+  ELSE LET b == B[1] IN
+       V(IF b.k = "h" /\ b.level = cfg.level THEN {} ELSE {b.ln},
+         IF b.k \in {"html", "bq", "ul", "ol"} \/ b.ln > 1 \/ b.depth > 0 THEN Lines(L) ELSE {})
+
+(* MD022 blanks-around-headings (lines_above = lines_below = 1): a top-level heading that is directly preceded or directly
+   followed by a non-blank line.  Undecided: headings in containers, more than one blank line, neighbours that are not
+   paragraphs or headings (thematic breaks, HTML blocks, containers). *)
+Verdict_MD022(L, B) ==
+  LET hs == {x \in Blocks(B, "h") : B[x].depth = 0}
+      bad(x) == \/ (B[x].ln > 1 /\ ~L[B[x].ln - 1].blank)
+                \/ (B[x].endln < Len(L) /\ ~L[B[x].endln + 1].blank /\ B[x].endln + 1 < Len(L) + 1)
+      plainNeighbours(x) ==
+         /\ (B[x].ln > 1 => (L[B[x].ln - 1].blank \/ L[B[x].ln - 1].plain))
+         /\ (B[x].endln < Len(L) => (L[B[x].endln + 1].blank \/ L[B[x].endln + 1].plain)) IN
+  V({B[i].ln : i \in {x \in hs : bad(x) /\ plainNeighbours(x)}},
+    {B[i].ln : i \in {x \in Blocks(B, "h") : B[x].depth > 0 \/ ~plainNeighbours(x)
+                                              \/ B[x].endln = Len(L)                      \* the file ends with the heading line
+                                              \/ (B[x].ln > 2 /\ L[B[x].ln - 1].blank /\ L[B[x].ln - 2].blank)
+                                              \/ (B[x].endln + 2 <= Len(L) /\ L[B[x].endln + 1].blank /\ L[B[x].endln + 2].blank)}})
 =============================================================================
